@@ -43,14 +43,14 @@ func GenC15(t *rapid.T) *C15Case {
 	switch pick(t, "sub", 40, 25, 35) {
 	case 0:
 		c.Sub = "foreach"
-		c.N = []int{0, 1, 2, 3, 4, 5, 8, 13, 20, 40, 64, 65, 100, 130, 257}[drawIdx(t, 15, "n")]
+		c.N = []int{0, 1, 2, 3, 4, 5, 8, 13, 20, 40, 64, 65, 100, 130, 257, 1025}[drawIdx(t, 16, "n")]
 		for i := 0; i < c.N; i++ {
 			c.Order = append(c.Order, genRaw(t))
 		}
 	case 1:
 		c.Sub = "mapasync"
 		c.Nested = drawBool(t, "nestedasync")
-		c.N = []int{0, 1, 2, 3, 5, 8, 16, 40, 64, 65, 129, 257}[drawIdx(t, 12, "n")]
+		c.N = []int{0, 1, 2, 3, 5, 8, 16, 40, 64, 65, 129, 257, 1025, 2049}[drawIdx(t, 14, "n")]
 		for i := 0; i < c.N; i++ {
 			c.Yields = append(c.Yields, drawInt(t, 0, 3, "y"))
 		}
